@@ -176,7 +176,10 @@ def _run_case(case, rec, mon=None):
                     continue
                 used.append((i, W))
                 try:
-                    bank.get_impulse_response(i, W)
+                    if (i + W) % 3 == 0:
+                        bank.get_impulse_response(filt_idx=i, width=W)
+                    else:
+                        bank.get_impulse_response(i, W)
                 except Exception:
                     pass
         rec.sample({"cfg": cfg, "filter_width_pairs": used})
